@@ -118,13 +118,17 @@ Theorem C14_merc_dcrit_safe : forall s h z keep s' h' r, kind h = IMerc -> eN h 
 Proof. exact merc_remove_safe. Qed.
 Print Assumptions C14_merc_dcrit_safe.
 
-(* removal of a particle that is in the encounter map: its entry is dropped, later entries renumbered; the
-   map remains a valid injection (strictly increasing) into [0,N-1); encounter_index is its position *)
-Theorem C14_emap_remove_valid : forall N m n p index ob m' e' ob',
-  vmap N m n -> p < n -> nth p m zd = index ->
-  emap_loop n 0 index m false (-1)%Z ob = (m', e', ob') ->
-  e' = Z.of_nat p /\ ob' = ob /\ vmap (N - 1) m' (n - 1) /\
-  forall k, k < n - 1 -> nth k m' zd = if p <=? k then (nth (S k) m zd - 1)%Z else nth k m zd.
+(* removal of particle [index] during the encounter step, member of the encounter or not (since 98c9aa5): the
+   live part of the map becomes [renum index] of the old one (the member dropped, members above the index
+   shifted by one); it is again a strictly increasing injection, now into [0,N-1); its length drops by one
+   iff the particle was a member, and exactly then encounter_index >= 0; no access outside the map *)
+Theorem C14_emap_remove_valid : forall N m n index ob m' e' ob',
+  vmap N m n -> (0 <= index < Z.of_nat N)%Z ->
+  emap_loop n 0 0 index m (-1)%Z ob = (m', e', ob') ->
+  let live := firstn n m in
+  let n' := n - (if member index live then 1 else 0) in
+  ob' = ob /\ length m' = length m /\ firstn n' m' = renum index live /\ vmap (N - 1) m' n' /\
+  (0 <=? e')%Z = member index live.
 Proof. exact emap_remove_valid. Qed.
 Print Assumptions C14_emap_remove_valid.
 
@@ -196,9 +200,11 @@ Theorem C14_hybrid_add_ok : forall s h p d s' h', active h = true -> hyb_ok s h 
   hyb_ok s' h' /\ hoob h' = hoob h /\ sN s' = S (sN s) /\ eN h' = S (eN h).
 Proof. exact hadd_ok. Qed.
 Print Assumptions C14_hybrid_add_ok.
-Theorem C14_hybrid_remove_ok : forall s h z keep s' h' r p, active h = true -> hyb_ok s h ->
-  p < eN h -> nth p (emap h) zd = z -> hremove s h z keep = (s', h', r) -> r <> RFail ->
-  hyb_ok s' h' /\ hoob h' = hoob h /\ sN s' = sN s - 1 /\ eN h' = eN h - 1.
+Theorem C14_hybrid_remove_ok : forall s h z keep s' h' r, active h = true -> hyb_ok s h ->
+  hremove s h z keep = (s', h', r) -> r <> RFail ->
+  let live := firstn (eN h) (emap h) in
+  hyb_ok s' h' /\ hoob h' = hoob h /\ sN s' = sN s - 1 /\
+  eN h' = eN h - (if member z live then 1 else 0) /\ firstn (eN h') (emap h') = renum z live.
 Proof. exact hremove_ok. Qed.
 Print Assumptions C14_hybrid_remove_ok.
 
